@@ -1100,7 +1100,9 @@ func checkResultC13(rt *rapid.T, st *verifkit.Stats, sc *vScenarioC13, res *vRes
 	}
 }
 
-// Fixed regression probes for the two listed findings (no drawn input).
+// Fixed regression probes (no drawn input) for the listed findings and for the repaired
+// one: C13:refresh-monitor-deadlock is fixed in /repo (non-blocking refresh notification),
+// so its two timelines must satisfy invariant (1) now.
 func TestVerifC13KnownShapeProbes(t *testing.T) {
 	baseRepoC13(t)
 	st := verifkit.Begin(t, "C13")
@@ -1115,6 +1117,10 @@ func TestVerifC13KnownShapeProbes(t *testing.T) {
 		// succeeds at ~+29 min, after the monitor deadline (+5m0.2s + 22.5 min)
 		{"refresh-monitor-deadlock", vScenarioC13{Finish: 170 * time.Minute,
 			Windows: []vWindowC13{{Op: "save", Mode: "fail", From: 6 * time.Minute, Dur: 23 * time.Minute}}}},
+		// the same with the slow part in the removal of the old lock file: the refresh begun
+		// at +25m0.2s completes at ~+28.5 min, after the monitor deadline (+27m30s)
+		{"refresh-monitor-deadlock-slow-remove", vScenarioC13{Finish: 170 * time.Minute,
+			Windows: []vWindowC13{{Op: "remove", Mode: "fail", From: 7 * time.Minute, Dur: 21*time.Minute + 20*time.Second}}}},
 		// a refresh whose Save takes 9.5 min (two stuck requests), then lock saves fail for a
 		// while: the monitor counts 22.5 min from +14m27s, the lock (time +5m0.2s) is stale at +35m0.2s
 		{"monitor-counts-from-refresh-completion", vScenarioC13{Finish: 65 * time.Minute,
